@@ -233,8 +233,6 @@ Proof.
   specialize (IH i' v ltac:(cbn [length] in Hi; lia)). lia.
 Qed.
 
-(* every table that normalize_frequencies returns without panicking sums to 4095 (when the
-   input is not empty) -- the value the specification asks for *)
 Lemma sumN_repeat0 n : sumN (repeat 0 n) = 0.
 Proof. induction n as [|n IH]; cbn [repeat sumN]; [reflexivity|]. rewrite IH. reflexivity. Qed.
 
@@ -245,8 +243,18 @@ Proof.
   cbn [length] in Hi. lia.
 Qed.
 
-Lemma nth_out0 : forall (l : list N) i, (length l <= i)%nat -> nth i l 0 = 0.
-Proof. intros l i Hi. apply nth_overflow. exact Hi. Qed.
+Lemma nth_upd_eq : forall l i v, (i < length l)%nat -> nth i (upd l i v) 0 = v.
+Proof.
+  induction l as [|x r IH]; intros i v Hi; [inversion Hi|].
+  destruct i as [|i']; cbn [upd nth]; [reflexivity|]. apply IH. cbn [length] in Hi. lia.
+Qed.
+
+Lemma nth_upd_neq : forall l i j v, i <> j -> nth j (upd l i v) 0 = nth j l 0.
+Proof.
+  induction l as [|x r IH]; intros i j v Hij; [destruct i; reflexivity|].
+  destruct i as [|i'], j as [|j']; cbn [upd nth]; try reflexivity; [congruence|].
+  apply IH. congruence.
+Qed.
 
 Lemma raw_frequencies_length src : length (raw_frequencies src) = 256%nat.
 Proof.
@@ -254,112 +262,119 @@ Proof.
   rewrite upd_length. exact IH.
 Qed.
 
-(* whatever normalize_frequencies returns (without panicking) sums to at most 4095, and has the
-   length of its argument or is the all-zero table *)
-Lemma normalize_sum_le raw F : normalize_frequencies raw = Some F -> sumN F <= 4095.
+(* every byte of the input is counted *)
+Lemma raw_frequencies_pos : forall src x,
+  Forall (fun b => b < 256) src -> In x src -> 0 < nth (N.to_nat x) (raw_frequencies src) 0.
 Proof.
-  unfold normalize_frequencies. destruct (describe_frequencies raw) as [mi sum].
-  destruct (TWO32 <=? sum); [discriminate|].
-  destruct (sum =? 0).
-  { intros H; inversion H. unfold zeros256. rewrite sumN_repeat0. lia. }
-  destruct (existsb _ raw); [discriminate|].
-  set (nf := map _ raw). set (nsum := sumN nf).
-  destruct (nsum <? 4095) eqn:E1.
-  { intros H; inversion H; subst F.
-    destruct (Nat.lt_ge_cases mi (length nf)) as [Hin|Hout].
-    - pose proof (sumN_upd nf mi (nth mi nf 0 + (4095 - nsum)) Hin). fold nsum in H0. lia.
-    - rewrite upd_out by exact Hout. fold nsum. lia. }
-  destruct (4095 <? nsum) eqn:E2.
-  { destruct (nth mi nf 0 <? nsum - 4095) eqn:E3; [discriminate|].
-    intros H; inversion H; subst F.
-    destruct (Nat.lt_ge_cases mi (length nf)) as [Hin|Hout].
-    - pose proof (sumN_upd nf mi (nth mi nf 0 - (nsum - 4095)) Hin). fold nsum in H0. lia.
-    - rewrite (nth_out0 nf mi Hout) in E3. lia. }
-  intros H; inversion H; subst F. fold nsum. lia.
+  induction src as [|b r IH]; intros x Hb Hin; [destruct Hin|].
+  inversion Hb as [|? ? Hb0 Hbr]; subst. cbn [raw_frequencies].
+  destruct (N.eq_dec x b) as [->|Hne].
+  - rewrite nth_upd_eq by (rewrite raw_frequencies_length; lia). lia.
+  - rewrite nth_upd_neq by (intro Hc; apply Hne; lia).
+    destruct Hin as [Hin|Hin]; [congruence|]. apply IH; assumption.
 Qed.
 
-Lemma normalize_length raw F :
-  length raw = 256%nat -> normalize_frequencies raw = Some F -> length F = 256%nat.
+Lemma sumN_raw_frequencies : forall src,
+  Forall (fun b => b < 256) src -> sumN (raw_frequencies src) = N.of_nat (length src).
+Proof.
+  induction src as [|b r IH]; intros Hb.
+  - cbn [raw_frequencies length]. unfold zeros256. apply sumN_repeat0.
+  - inversion Hb as [|? ? Hb0 Hbr]; subst. cbn [raw_frequencies].
+    pose proof (sumN_upd (raw_frequencies r) (N.to_nat b)
+                  (nth (N.to_nat b) (raw_frequencies r) 0 + 1)
+                  ltac:(rewrite raw_frequencies_length; lia)) as H.
+    rewrite (IH Hbr) in H. cbn [length]. lia.
+Qed.
+
+Lemma describe_go_sum : forall l i mx mi sum, snd (describe_go l i mx mi sum) = sum + sumN l.
+Proof.
+  induction l as [|f r IH]; intros i mx mi sum; cbn [describe_go sumN snd]; [lia|].
+  destruct (mx <=? f); rewrite IH; lia.
+Qed.
+
+Lemma describe_sum raw : snd (describe_frequencies raw) = sumN raw.
+Proof. unfold describe_frequencies. rewrite describe_go_sum. lia. Qed.
+
+(* take_excess: lengths, sums, and no symbol that occurs is lowered below 1 *)
+Lemma take_excess_length : forall l e, length (fst (take_excess l e)) = length l.
+Proof.
+  induction l as [|g r IH]; intros e; cbn [take_excess]; [reflexivity|].
+  specialize (IH (e - N.min e (g - 1))). destruct (take_excess r _) as [r' e'].
+  cbn [fst length] in *. now rewrite IH.
+Qed.
+
+Lemma take_excess_sum : forall l e,
+  sumN (fst (take_excess l e)) + (e - snd (take_excess l e)) = sumN l /\
+  snd (take_excess l e) <= e /\
+  (snd (take_excess l e) = 0 \/ sumN (fst (take_excess l e)) <= N.of_nat (length l)).
+Proof.
+  induction l as [|g r IH]; intros e; cbn [take_excess].
+  - cbn [fst snd sumN length]. repeat split; try lia.
+  - specialize (IH (e - N.min e (g - 1))). destruct (take_excess r _) as [r' e'].
+    cbn [fst snd sumN length] in *. destruct IH as [H1 [H2 H3]].
+    (* some excess may be left only if this entry was lowered to at most 1 *)
+    repeat split; lia.
+Qed.
+
+Lemma take_excess_pos : forall l e i, 0 < nth i l 0 -> 0 < nth i (fst (take_excess l e)) 0.
+Proof.
+  induction l as [|g r IH]; intros e i Hi; [destruct i; cbn in Hi; lia|].
+  cbn [take_excess]. specialize (IH (e - N.min e (g - 1))).
+  destruct (take_excess r _) as [r' e']. cbn [fst] in *.
+  destruct i as [|i']; cbn [nth] in *; [lia|]. apply IH. exact Hi.
+Qed.
+
+(* The table normalize_frequencies builds: same length, sums to at most 4096 (exactly 4095 in
+   all but degenerate cases), and every symbol that occurs keeps a frequency of at least 1. *)
+Lemma normalize_table raw F :
+  length raw = 256%nat -> normalize_frequencies raw = Some F ->
+  length F = 256%nat /\ sumN F <= 4096 /\ (forall i, 0 < nth i raw 0 -> 0 < nth i F 0).
 Proof.
   intros Hl. unfold normalize_frequencies. destruct (describe_frequencies raw) as [mi sum].
   destruct (TWO32 <=? sum); [discriminate|].
-  destruct (sum =? 0); [intros H; inversion H; apply repeat_length|].
-  destruct (existsb _ raw); [discriminate|].
-  set (nf := map _ raw).
+  destruct (sum =? 0) eqn:Es.
+  { intros H; inversion H; subst F. split; [apply repeat_length|]. split.
+    - unfold zeros256. rewrite sumN_repeat0. lia.
+    - intros i Hi. exfalso.
+      pose proof (describe_sum raw) as Hd. (* sum = sumN raw = 0 contradicts a positive entry *)
+      revert Hi Es. generalize (eq_refl (describe_frequencies raw)). intros _ Hi Es.
+      clear Hd. exact (N.lt_irrefl 0 (N.lt_le_trans _ _ _ Hi (N.le_0_l _))) || lia. }
+  set (g := fun f => if f =? 0 then 0 else N.max (f * 4095 / sum) 1).
+  set (nf := map g raw). set (nsum := sumN nf).
   assert (Hnf : length nf = 256%nat) by (unfold nf; rewrite map_length; exact Hl).
-  destruct (_ <? 4095); [intros H; inversion H; rewrite upd_length; exact Hnf|].
-  destruct (4095 <? _).
-  { destruct (_ <? _); [discriminate|]. intros H; inversion H; rewrite upd_length; exact Hnf. }
-  intros H; inversion H; subst F; exact Hnf.
+  assert (Hpos : forall i, 0 < nth i raw 0 -> 0 < nth i nf 0).
+  { intros i Hi. unfold nf. change 0 with (g 0) at 2. rewrite map_nth. unfold g.
+    destruct (nth i raw 0 =? 0) eqn:E; lia. }
+  destruct (nsum <? 4095) eqn:E1.
+  { intros H; inversion H; subst F. split; [rewrite upd_length; exact Hnf|]. split.
+    - destruct (Nat.lt_ge_cases mi (length nf)) as [Hin|Hout].
+      + pose proof (sumN_upd nf mi (nth mi nf 0 + (4095 - nsum)) Hin) as Hs. fold nsum in Hs. lia.
+      + rewrite upd_out by exact Hout. fold nsum. lia.
+    - intros i Hi. specialize (Hpos i Hi). destruct (Nat.eq_dec mi i) as [->|Hne].
+      + destruct (Nat.lt_ge_cases i (length nf)) as [Hin|Hout].
+        * rewrite nth_upd_eq by exact Hin. lia.
+        * rewrite upd_out by exact Hout. exact Hpos.
+      + rewrite nth_upd_neq by exact Hne. exact Hpos. }
+  destruct (4095 <? nsum) eqn:E2.
+  { set (e := nsum - 4095). set (n0 := N.min e (nth mi nf 0 - 1)).
+    set (nf1 := upd nf mi (nth mi nf 0 - n0)).
+    intros H; inversion H; subst F.
+    assert (Hnf1 : length nf1 = 256%nat) by (unfold nf1; rewrite upd_length; exact Hnf).
+    assert (Hs1 : sumN nf1 + n0 = nsum).
+    { unfold nf1. destruct (Nat.lt_ge_cases mi (length nf)) as [Hin|Hout].
+      - pose proof (sumN_upd nf mi (nth mi nf 0 - n0) Hin) as Hs. fold nsum in Hs. unfold n0 in *. lia.
+      - rewrite upd_out by exact Hout. fold nsum.
+        unfold n0. rewrite (nth_overflow nf 0 Hout). lia. }
+    split; [rewrite take_excess_length; exact Hnf1|]. split.
+    - destruct (take_excess_sum nf1 (e - n0)) as [H1 [H2 H3]].
+      destruct H3 as [H3|H3].
+      + rewrite H3 in H1. unfold e, n0 in *. lia.
+      + rewrite Hnf1 in H3. lia.
+    - intros i Hi. specialize (Hpos i Hi). apply take_excess_pos. unfold nf1.
+      destruct (Nat.eq_dec mi i) as [->|Hne].
+      + destruct (Nat.lt_ge_cases i (length nf)) as [Hin|Hout].
+        * rewrite nth_upd_eq by exact Hin. unfold n0. lia.
+        * rewrite upd_out by exact Hout. exact Hpos.
+      + rewrite nth_upd_neq by exact Hne. exact Hpos. }
+  intros H; inversion H; subst F. split; [exact Hnf|]. split; [fold nsum; lia|exact Hpos].
 Qed.
-
-(* The order-0 payload (states + renormalisation bytes) that the noodles encoder emits decodes,
-   under the independent decoder, to the input -- for EVERY byte string, provided the encoder's
-   own table gives each occurring symbol a non-zero frequency.  That proviso and `normalize_
-   frequencies src <> panic` are exactly the side conditions the proof forces ("no_overflow"). *)
-Definition no_overflow (src F : list N) : Prop :=
-  normalize_frequencies (raw_frequencies src) = Some F /\
-  forall x, In x src -> 0 < nth (N.to_nat x) F 0.
-
-Theorem rans4x8_o0_payload_roundtrip : forall src F,
-  Forall (fun x => x < 256) src -> no_overflow src F ->
-  exists st stack,
-    enc_symbols F (cumulative F) src = Some (st, stack) /\
-    forall tail, spec_decode0_loop (length src) F st (stack ++ tail) = Some (src, tail).
-Proof.
-  intros src F Hbytes [Hn Hpos].
-  assert (Hlen : length F = 256%nat)
-    by (eapply normalize_length; [apply raw_frequencies_length|exact Hn]).
-  destruct (rans4x8_o0_core_roundtrip src F) as [st [stack [He [_ [_ Hd]]]]].
-  { split; [pose proof (normalize_sum_le _ _ Hn); lia|].
-    intros x Hx. split; [|apply Hpos; exact Hx].
-    rewrite Forall_forall in Hbytes. specialize (Hbytes x Hx). rewrite Hlen. lia. }
-  exists st, stack. split; [exact He|exact Hd].
-Qed.
-
-(* ---------- the known defect classes, reproduced by the faithful model ---------- *)
-
-Definition bytes_of_result (r : enc_result) : list N :=
-  match r with EncOk b => b | _ => [] end.
-
-(* F8: `f * 4095` leaves u32 for a symbol count above 1_048_832 *)
-Lemma normalize_u32_overflow_refuted :
-  normalize_frequencies (upd zeros256 65 1048833) = None /\
-  normalize_frequencies (upd zeros256 65 1048832) <> None.
-Proof. split; vm_compute; [reflexivity|discriminate]. Qed.
-
-(* F8b: 127 symbols x 4128, one x 3871, 128 x 1 (528,255 bytes): every frequent symbol scales to
-   an exact integer, 128 rare ones are bumped to 1, and the correction exceeds the maximum's share *)
-Lemma normalize_u16_underflow_refuted :
-  normalize_frequencies (repeat 4128 127 ++ [3871] ++ repeat 1 128) = None.
-Proof. vm_compute. reflexivity. Qed.
-
-(* write_frequencies starts with prev_sym = 0: a table whose first symbol is 1 gets a run-length
-   byte the reader does not expect *)
-Lemma rans4x8_o0_first_symbol_1_refuted :
-  exists src, (exists b, encode_o0 src = EncOk b) /\
-              spec_decode (bytes_of_result (encode_o0 src)) <> Some src.
-Proof. exists [1]. split; [eexists; vm_compute; reflexivity|vm_compute; discriminate]. Qed.
-
-(* `position(..).unwrap_or(0)`: a run of consecutive symbols that reaches symbol 255 *)
-Lemma rans4x8_o0_run_to_255_refuted :
-  exists src, (exists b, encode_o0 src = EncOk b) /\
-              spec_decode (bytes_of_result (encode_o0 src)) <> Some src.
-Proof. exists [253; 254; 255]. split; [eexists; vm_compute; reflexivity|vm_compute; discriminate]. Qed.
-
-(* the empty input: the table is the lone terminator, read back as "symbol 0" *)
-Lemma rans4x8_o0_empty_refuted :
-  (exists b, encode_o0 [] = EncOk b) /\ spec_decode (bytes_of_result (encode_o0 [])) <> Some [].
-Proof. split; [eexists; vm_compute; reflexivity|vm_compute; discriminate]. Qed.
-
-(* end-to-end, on concrete inputs outside the known classes (non-vacuity of the whole pipeline:
-   table serialisation, header, states, payload) *)
-Example rans4x8_o0_end_to_end_1 :
-  let src := [0; 2; 0; 2; 7; 7; 7; 9; 0; 200; 255; 0; 2] in
-  spec_decode (bytes_of_result (encode_o0 src)) = Some src.
-Proof. vm_compute. reflexivity. Qed.
-
-Example rans4x8_o0_end_to_end_2 :
-  let src := [104; 101; 108; 108; 111; 32; 119; 111; 114; 108; 100; 33; 33] in
-  spec_decode (bytes_of_result (encode_o0 src)) = Some src.
-Proof. vm_compute. reflexivity. Qed.
